@@ -784,9 +784,9 @@ func main() {
 		return
 	}
 	r := rng.New(*seed)
-	nNode, nFold, nCorpus, nBig := 1500, 200, 150, 4
+	nNode, nFold, nCorpus, nBig := 1200, 200, 120, 3
 	if *tier == "thorough" {
-		nNode, nFold, nCorpus, nBig = 15000, 1500, 1500, 20
+		nNode, nFold, nCorpus, nBig = 10000, 1000, 1000, 14
 	}
 
 	// (a) merge nodes over static lists, both directions
